@@ -91,3 +91,22 @@ CHECKS["C17"] = dict(
     required=["variant:raw", "variant:read", "variant:write", "variant:both", "writev-while-bytes-pending", "payload-larger-than-buffer", "flush", "peer-fragmented"],
     assumptions=["the in-memory net.Conn accepts every write completely, like a healthy connection"],
 )
+
+CHECKS["C14"] = dict(
+    test="TestC14", level="exploration",
+    quick=dict(shards=8, checks=6000, timeout=300),
+    thorough=dict(shards=16, checks=250000, timeout=2400, shrinktime="120s"),
+    rule="rapid-generated messages: 14 supported carriers ([]byte, [][]byte with empty segments, *bytes.Buffer, *bytes.Reader, "
+         "*strings.Reader, *net.Buffers, WriterTo with one / many writes / many writes from a reused scratch buffer, bufio.Reader, plain "
+         "io.Reader, short-reading reader, reader returning data together with EOF, reader failing after k bytes) and 6 unsupported types x "
+         "sizes 0,1,1023-1025,2047-2049,4095-4097,65535-65537,200000 and random x read/segment sizes, written with Channel.Write on a "
+         "synchronous and on queued channels (queue 1,2,8,64; inline-sender executor) over the mock transport: the transmitted stream must "
+         "equal the content (prefix + one exception for a failing reader; nothing + one exception for unsupported types); and the helpers "
+         "ToBytes/ToReader/CountOf/NewByteReader/StealBytes over the same carriers against io.ReadAll-style references. "
+         "Non-trivial = size > 1024, a short/EOF-with-data/failing reader, a buffer-reusing WriterTo, or an unsupported type.",
+    required=["mode:head", "mode:tobytes", "mode:toreader", "mode:countof", "mode:bytereader", "mode:stealbytes", "channel:sync", "channel:queued",
+              "bytes:>1024", "bb:>1024", "buffer:>1024", "breader:>1024", "reader:>1024", "short:>1024", "eofdata:>1024", "wtN:>1024", "netbuffers:>1024",
+              "reader:<=1024", "carrier:errafter", "carrier:string", "carrier:nil", "carrier:httpreq", "carrier:bufio", "carrier:wtReuse"],
+    assumptions=["a byte returned by ReadByte together with an error counts as not delivered (io.ByteReader contract)",
+                 "io.Writer implementations must not retain the slice they are given, so a WriterTo may reuse its buffer between writes"],
+)
